@@ -578,6 +578,17 @@ func c03Entry(entry string, data string, mode string) (class string, detail sx.S
 		} else {
 			err = root.ParseReader(newC03Reader(data, mode))
 		}
+		// the same text as a second load on a root that already holds the seed schema: extensions of
+		// loaded types, duplicates of loaded names, and the rollback of a refused load
+		root2 := ggql.NewRoot(nil)
+		if err2 := root2.ParseString(c03Seeds["sdl"][0]); err2 == nil {
+			if mode == "" {
+				_ = root2.ParseString(data)
+			} else {
+				_ = root2.ParseReader(newC03Reader(data, mode))
+			}
+			_ = root2.SDL(true, true)
+		}
 		if err != nil {
 			return "error", "-"
 		}
@@ -589,7 +600,7 @@ func c03Entry(entry string, data string, mode string) (class string, detail sx.S
 		w.nodes[2] = &gnode{gotype: 20, fields: map[int]behav{3: {kind: "const", v: sx.L("str", "1")}, 1: {kind: "const", v: sx.L("node", "2")},
 			4: {kind: "const", v: sx.L("list", sx.L("node", "2"), "nil")}}}
 		root := ggql.NewRoot(&execSchemaObj{w: w, q: 1, m: -1})
-		_ = root.ParseString("type Query { f1: T20 f2(a1: Int!, a2: [String], a3: T40): Int } type T20 { f3: String f1: T20 f4: [T20] } input T40 { a1: Int! a2: [T40] }")
+		_ = root.ParseString("type Query { f1: T20 f2(a1: Int!, a2: [String], a3: T40, a4: T41): Int } type T20 { f3: String f1: T20 f4: [T20] } input T40 { a1: Int! a2: [T40] } input T41 { n: Int = 1 next: T41 = {} list: [T41] = [{}] }")
 		// request parsing and printing of whatever the reader returned, then resolution
 		vars := map[string]interface{}{"v1": 1, "v2": nil, "v3": []interface{}{"x", 2}}
 		var res map[string]interface{}
@@ -660,7 +671,13 @@ func c03Exec(input sx.S) sx.S {
 	select {
 	case r := <-ch:
 		if entry == "value" {
-			return sx.L("class", r.class, r.detail, floatTable(data))
+			seen := data // the bytes the reader delivers before it fails
+			if strings.HasPrefix(mode, "r3k") {
+				if k, err := strconv.Atoi(mode[3:]); err == nil && k < len(seen) {
+					seen = seen[:k]
+				}
+			}
+			return sx.L("class", r.class, r.detail, floatTable(seen))
 		}
 		return sx.L("class", r.class)
 	case <-time.After(10 * time.Second):
@@ -684,13 +701,22 @@ func c03ChildMain(entry string, mode string) {
 var c03Seeds = map[string][]string{
 	"value": {`{a: 1, b: [true, null, "x\n", E, $v], c: {d: 1.5e3}}`, `[1 2 3]`, `"""block "" string"""`, `-12`, `"é"`, `{"k": [[], {}]}`},
 	"sdl": {"type Query { a(x: Int = 3, y: [String!]! = [\"q\"]): Thing @deprecated(reason: \"no\") }\n\"desc\"\ntype Thing implements I { name: String }\ninterface I { name: String }\nunion U = Thing\nenum E { A B }\ninput In { p: Int! = 1 }\nscalar Date\ndirective @d(a: Int) on FIELD | OBJECT\nextend type Thing { more: Thing }\nschema { query: Query }\n",
-		"\"\"\"\nblock\n\"\"\"\ntype Query { a: Int }"},
+		"\"\"\"\nblock\n\"\"\"\ntype Query { a: Int }",
+		// extensions of types the root already holds (the second load of the sdl entry), several per type,
+		// the last one refused: the rollback runs over all of them
+		"extend type Thing { x: Int }\nextend type Thing { y: Int }\nextend type Thing { x: Int }\n",
+		"extend enum E { C }\nextend enum E { D }\nextend input In { q: Int }\nextend input In { r: Int }\nextend interface I { z: Int }\nextend enum E { C }\n",
+		"extend type Thing { x: Int }\nextend type Thing { y: Nope }\nextend union U = Query\nextend union U = Query\n",
+		"type Query { a: Int }\nextend type Query { b: Int }\nextend type Query { c: Int }\nextend type Query { b: Int }\n",
+		"input Node { n: Int = 1 next: Node = {} list: [Node] = [{}] }\ntype Query { f(x: Node = {}): Int }\n"},
 	"exe": {`query Q($v1: Int = 2, $v2: [String]) { f1 { f3 f1 { ...F } } f2(a1: $v1, a2: ["s"], a3: {a1: 1, a2: [{a1: 2}]}) ... on Query { f1 { f3 } } }
 fragment F on T20 { f3 f1 { f3 } }`, `{ f1 { f3 f4 { f3 } } }`, `mutation M { f1 { f3 } }`, `{ __schema { types { name } } __type(name: "T20") { fields { name } } }`,
 		`query($a:){f1{f3}}`, `{f1{...F}} fragment F on T20 {f3 ...F}`, `{f1{...F}} fragment F on T20 {f3 f1 { ...G }} fragment G on T20 { f1 { ...F } }`,
 		`{ f2(a1: 1, a2: $v3) }`, `{ f2 }`, `{ f2(a1: null) }`, `{ f2(a1: "s") }`, `{ f2(a1: 4294967297) }`,
 		`query($a: [Int!]! = [1]) { f1 { ... on T20 @skip(if: false) { f3 } ... @include(if: true) { f3 } } }`,
 		`subscription S { f1 { f3 } }`, `{ f2(a1: [1], a2: {a: 1}, a3: E) }`, `{ f2(a1: 1, a3: {a1: 1, a2: [{a1: $v1}, null]}) }`,
+		// an input type that reaches itself through defaulted fields: given empty, as a literal, a variable, a default
+		`{ f2(a1: 1, a4: {}) }`, `query($v: T41 = {}) { f2(a1: 1, a4: $v) }`, `{ f2(a1: 1, a4: {next: {list: [{}]}}) }`,
 		// fragments that reach themselves only through an inline fragment, a field, a list, one another
 		`{ ...A } fragment A on Query { f1 { f3 } ... on Query { ...A } }`, `{f1{...F}} fragment F on T20 { f3 ... { ...F } }`,
 		`{f1{...F}} fragment F on T20 { f4 { ... on T20 { f1 { ...F } } } }`, `{f1{...F}} fragment F on T20 { ... on T20 { ...G } } fragment G on T20 { ... { ...F } }`},
@@ -812,7 +838,15 @@ func c03Gen(r *rand.Rand, tier string) []Case {
 		if i%5 == 0 {
 			// the same bytes through a reader: EOF delivered with the last bytes, one byte per Read, failing mid-stream
 			mode := []string{"r1", "r2", "r1", "r3k" + strconv.Itoa(r.Intn(len(m)+1))}[(i/5)%4]
-			addMode(entry, m, mode)
+			if entry == "value" && i%10 == 0 {
+				// in process: the outcome and the value are compared with the model's reader (its failing
+				// reader for r3kN)
+				id++
+				cases = append(cases, Case{ID: fmt.Sprintf("b%d", id), Input: sx.L("bytes", entry, sx.Hex(m), mode),
+					Tags: []string{"reader-" + mode[:2] + "-compared", "nontrivial", entry}, Human: m + "  (reader " + mode + ")"})
+			} else {
+				addMode(entry, m, mode)
+			}
 		}
 	}
 	// every seed, and every seed cut short at every delimiter, through the EOF-with-the-last-bytes reader
@@ -828,6 +862,13 @@ func c03Gen(r *rand.Rand, tier string) []Case {
 				}
 			}
 		}
+	}
+	// at the nesting bound (maxNesting = 10000), in process and compared with the model byte by byte:
+	// the deepest value that is read, and the first that is refused
+	for _, d := range []int{9999, 10000, 10001} {
+		add("value", strings.Repeat("[", d)+strings.Repeat("]", d), false, "nesting-bound", "nontrivial")
+		add("value", strings.Repeat("{a:", d)+"1"+strings.Repeat("}", d), false, "nesting-bound", "nontrivial")
+		add("value", strings.Repeat("[{a:", d/2)+"[]"+strings.Repeat("}]", d/2), false, "nesting-bound", "nontrivial")
 	}
 	// nesting bombs and long runs, in child processes (a stack overflow is fatal, not a panic)
 	depths := []int{1000, 100000}
